@@ -22,7 +22,8 @@ Inductive op :=
 | Fetchall
 | SetArraysize (n : nat)
 | Rowcount
-| FetchPandas.
+| FetchPandas
+| Peek.      (* reading cursor.description / sqlstate / sfqid / query: observers, they answer but change nothing *)
 
 (* a python dict built from (name, value) pairs: a repeated key keeps its first position, last value *)
 Fixpoint dict_set (d : list (str * value)) (k : str) (v : value) : list (str * value) :=
@@ -59,6 +60,7 @@ Definition step (s : st) (o : op) : st * out :=
           rc := Some (match aff with Some k => k | None => length rows end) |}, OUnit)
   | SetArraysize n => ({| res := res s; idx := idx s; asz := n; dictc := dictc s; rc := rc s |}, OUnit)
   | Rowcount => (s, OCount (rc s))
+  | Peek => (s, OUnit)
   | FetchPandas =>
       (s, match res s with None => OErr 2 | Some (rows, _) => OCount (Some (length rows)) end)
   | Fetchmany k =>
@@ -124,6 +126,7 @@ Definition dec_op (x : sexp) : option op :=
   | L [A 4; n] => match dec_nat n with Some n => Some (SetArraysize n) | None => None end
   | L [A 5] => Some Rowcount
   | L [A 6] => Some FetchPandas
+  | L [A 7] => Some Peek
   | _ => None
   end.
 
